@@ -8,17 +8,22 @@ Open Scope N_scope.
    or boot installs the loaded database; everything else -- snapshots, restarts, joins, rejected loads, a boot
    refused because the cluster has several nodes -- changes nothing.  The number of nodes is tracked because
    a boot is only accepted by a single-node cluster. *)
-Definition cspec_step (x : cells * nat) (o : cop) : cells * nat :=
+Definition cspec_step (x : cells * nat) (o : cop) (res : N) : cells * nat :=
   let '(d, k) := x in
   match o with
   | CWrite ks v => (apply_frames d (map (fun q => (q, v)) ks), k)
   | CLoad c => (cells_of_vec c, k)
   | CLoadSQL c => (apply_frames d (sql_frames c), k)
-  | CBoot c => if Nat.eqb k 1 then (cells_of_vec c, k) else (d, k)
+  | CBoot c => if (res =? 0) then (cells_of_vec c, k) else (d, k)    (* a refused boot changes nothing *)
   | CJoin => (d, S k)
   | _ => (d, k)
   end.
-Definition cspec (ops : list cop) : cells * nat := fold_left cspec_step ops ([], 1%nat).
+(* model and specification side by side; the specification only takes each operation's result code from the
+   model (the driver compares the codes with the real ones) *)
+Definition cboth_step (x : cluster * (cells * nat)) (o : cop) : cluster * (cells * nat) :=
+  let '(c, y) := x in let '(c', res) := cstep c o in (c', cspec_step y o res).
+Definition cboth (ops : list cop) : cluster * (cells * nat) := fold_left cboth_step ops (cinit, ([], 1%nat)).
+Definition cspec (ops : list cop) : cells * nat := snd (cboth ops).
 
 (* a node holds the database d, and so does what a restart of it, or a transfer of its newest snapshot and
    log suffix to another node, rebuilds *)
@@ -43,68 +48,148 @@ Proof.
   eapply cells_eq_trans; [exact H3 | exact Hl].
 Qed.
 
-(* the log of a node after one of its own steps *)
-Lemma snapshot_log s o : log (fst (snapshot_step true s o)) = log s.
+(* the log and the snapshots of a node after one of its own steps *)
+Lemma begin_log s : log (fst (snap_begin true s)) = log s.
 Proof.
-  unfold snapshot_step. destruct (full_due s); [destruct o; reflexivity|].
-  destruct (wal s); [reflexivity|]. destruct o; reflexivity.
+  unfold snap_begin. destruct (pending s); [reflexivity|]. destruct (full_due s); [reflexivity|].
+  destruct (wal s); reflexivity.
 Qed.
-
-Lemma snapshot_snaps s o : snaps s <> [] -> snaps (fst (snapshot_step true s o)) <> [].
+Lemma begin_snaps s : snaps (fst (snap_begin true s)) = snaps s.
 Proof.
-  intros H. unfold snapshot_step. destruct (full_due s).
-  - destruct o; cbn; try exact H; discriminate.
-  - destruct (wal s); [exact H|]. destruct o; cbn; try exact H; discriminate.
+  unfold snap_begin. destruct (pending s); [reflexivity|]. destruct (full_due s); [reflexivity|].
+  destruct (wal s); reflexivity.
 Qed.
-
-Lemma snap_ok_nonempty s : snd (snapshot_step true s POk) = 0 -> snaps (fst (snapshot_step true s POk)) <> [].
+Lemma blocked_log s : log (fst (snap_blocked s)) = log s.
 Proof.
-  unfold snapshot_step. destruct (full_due s); [cbn; discriminate|].
-  destruct (wal s); cbn; discriminate.
+  unfold snap_blocked. destruct (pending s); [reflexivity|]. destruct (full_due s); [reflexivity|].
+  destruct (wal s); reflexivity.
+Qed.
+Lemma blocked_snaps s : snaps (fst (snap_blocked s)) = snaps s.
+Proof.
+  unfold snap_blocked. destruct (pending s); [reflexivity|]. destruct (full_due s); [reflexivity|].
+  destruct (wal s); reflexivity.
+Qed.
+Lemma persist_log s o : log (fst (snap_persist true s o)) = log s.
+Proof.
+  unfold snap_persist. destruct (pending s) as [[i img sw|i sw]|]; [| |reflexivity].
+  - destruct o; cbn [andb was_swapped]; destruct sw; cbn; try reflexivity; destruct (staging s); reflexivity.
+  - destruct o; cbn [andb was_swapped]; [destruct (full_needed (set_pending s None))| | |]; destruct sw; reflexivity.
+Qed.
+Lemma persist_snaps s o : snaps s <> [] -> snaps (fst (snap_persist true s o)) <> [].
+Proof.
+  intros H. unfold snap_persist. destruct (pending s) as [[i img sw|i sw]|]; [| |exact H].
+  - destruct o; cbn [andb was_swapped]; destruct sw; cbn; try exact H; try discriminate; destruct (staging s); exact H.
+  - destruct o; cbn [andb was_swapped]; [destruct (full_needed (set_pending s None))| | |]; destruct sw; cbn; try exact H; discriminate.
+Qed.
+(* a snapshot persisted with result 0 and outcome ok is visible *)
+Lemma persist_ok_nonempty s : snd (snap_persist true s POk) = 0 -> snaps (fst (snap_persist true s POk)) <> [].
+Proof.
+  unfold snap_persist. destruct (pending s) as [[i img sw|i sw]|]; [| |cbn; discriminate].
+  - cbn [andb was_swapped]. destruct sw; cbn; discriminate.
+  - cbn [andb was_swapped]. destruct (full_needed (set_pending s None)); destruct sw; cbn; discriminate.
 Qed.
 
 Lemma restart_log s : log (fst (step s ORestart)) = log s.
 Proof.
   unfold step, step_gen. destruct (restored s) as [r|]; [|reflexivity]. cbn [fst].
-  destruct (phys_fold (suffix s) (set_staging (set_dbf s r []) [])) as (_ & H & _). exact H.
+  destruct (phys_fold (suffix s) (set_pending (set_mnewer (set_staging (set_dbf s r []) []) false) None) eq_refl) as (_ & H & _). exact H.
 Qed.
 
 Lemma restart_snaps s : snaps (fst (step s ORestart)) = snaps s.
 Proof.
   unfold step, step_gen. destruct (restored s) as [r|]; [|reflexivity]. cbn [fst].
-  destruct (phys_fold (suffix s) (set_staging (set_dbf s r []) [])) as (H & _). exact H.
+  destruct (phys_fold (suffix s) (set_pending (set_mnewer (set_staging (set_dbf s r []) []) false) None) eq_refl) as (H & _). exact H.
 Qed.
 
-Lemma replay_congr0 l a b : cells_eq a b -> cells_eq (replay l a) (replay l b).
-Proof. apply replay_congr. Qed.
+(* the operations one node performs on its own: nothing of the log, nothing of the applied database changes *)
+Inductive local_op : op -> Prop :=
+| lo_begin : local_op OSnapBegin
+| lo_persist o : local_op (OSnapPersist o)
+| lo_blocked : local_op OSnapBlocked
+| lo_restart : local_op ORestart.
 
-(* one step of one node keeps it good for the same d when the operation is not a log entry *)
-Lemma local_step d l s o :
-  ((exists out, o = OSnap out) \/ o = ORestart) -> good d l s -> good d l (fst (step s o)).
+Lemma local_log s o : local_op o -> log (fst (step s o)) = log s.
+Proof.
+  intros [ |out| | ].
+  - unfold step, step_gen. apply begin_log.
+  - unfold step, step_gen. apply persist_log.
+  - unfold step, step_gen. apply blocked_log.
+  - apply restart_log.
+Qed.
+
+Lemma local_snaps s o : local_op o -> snaps s <> [] -> snaps (fst (step s o)) <> [].
+Proof.
+  intros [ |out| | ] H.
+  - unfold step, step_gen. rewrite begin_snaps. exact H.
+  - unfold step, step_gen. apply persist_snaps. exact H.
+  - unfold step, step_gen. rewrite blocked_snaps. exact H.
+  - rewrite restart_snaps. exact H.
+Qed.
+
+Lemma local_step d l s o : local_op o -> good d l s -> good d l (fst (step s o)).
 Proof.
   intros Ho (I & Hl & Hlog).
   destruct (step_preserves s o I) as [I' Hl'].
   split; [exact I'|]. split.
-  - eapply cells_eq_trans; [exact Hl'|]. destruct Ho as [[out ->] | ->]; exact Hl.
-  - destruct Ho as [[out ->] | ->].
-    + unfold step, step_gen. rewrite snapshot_log. exact Hlog.
-    + rewrite restart_log. exact Hlog.
+  - eapply cells_eq_trans; [exact Hl'|]. destruct Ho; exact Hl.
+  - rewrite local_log by exact Ho. exact Hlog.
 Qed.
 
-Lemma at_node_good d l o : ((exists out, o = OSnap out) \/ o = ORestart) ->
+Definition local_lop (l : lop) : Prop := match l with LSnap2 _ => True | LOp o => local_op o end.
+
+Lemma snap2_unfold s o :
+  fst (snap2 s o) = (if snd (step s OSnapBegin) =? 0 then fst (step (fst (step s OSnapBegin)) (OSnapPersist o)) else fst (step s OSnapBegin)).
+Proof. unfold snap2. destruct (step s OSnapBegin) as [s1 r1]. cbn. destruct (r1 =? 0); reflexivity. Qed.
+
+Lemma llocal_step d l s o : local_lop o -> good d l s -> good d l (fst (lstep s o)).
+Proof.
+  destruct o as [out|o]; cbn [local_lop lstep]; intros Ho G.
+  - rewrite snap2_unfold. destruct (snd (step s OSnapBegin) =? 0).
+    + apply local_step; [constructor|]. apply local_step; [constructor | exact G].
+    + apply local_step; [constructor | exact G].
+  - apply local_step; assumption.
+Qed.
+
+Lemma llocal_log s o : local_lop o -> log (fst (lstep s o)) = log s.
+Proof.
+  destruct o as [out|o]; cbn [local_lop lstep]; intros Ho.
+  - rewrite snap2_unfold. destruct (snd (step s OSnapBegin) =? 0).
+    + rewrite local_log by constructor. apply local_log. constructor.
+    + apply local_log. constructor.
+  - apply local_log. exact Ho.
+Qed.
+
+Lemma llocal_snaps s o : local_lop o -> snaps s <> [] -> snaps (fst (lstep s o)) <> [].
+Proof.
+  destruct o as [out|o]; cbn [local_lop lstep]; intros Ho H.
+  - rewrite snap2_unfold. destruct (snd (step s OSnapBegin) =? 0).
+    + apply local_snaps; [constructor|]. apply local_snaps; [constructor | exact H].
+    + apply local_snaps; [constructor | exact H].
+  - apply local_snaps; assumption.
+Qed.
+
+(* a whole snapshot that reports success with outcome ok is visible in the store *)
+Lemma snap2_ok_nonempty s : snd (snap2 s POk) = 0 -> snaps (fst (snap2 s POk)) <> [].
+Proof.
+  unfold snap2. destruct (step s OSnapBegin) as [s1 r1]. destruct (r1 =? 0) eqn:E.
+  - unfold step, step_gen. apply persist_ok_nonempty.
+  - cbn. intros H. rewrite H in E. discriminate.
+Qed.
+
+Lemma at_node_good d l o : local_lop o ->
   forall ns i, Forall (good d l) ns -> Forall (good d l) (at_node ns i o).
 Proof.
   intros Ho ns. induction ns as [|s r IH]; intros i F; [destruct i; constructor|].
   inversion F as [|? ? Hs Hr]; subst.
-  destruct i; cbn [at_node]; constructor; auto using local_step.
+  destruct i; cbn [at_node]; constructor; auto using llocal_step.
 Qed.
 
 Lemma at_node_length ns : forall i o, length (at_node ns i o) = length ns.
 Proof. induction ns as [|s r IH]; intros [|i] o; cbn; auto. Qed.
 
 Lemma at_node_head L r i o : exists L' r', at_node (L :: r) i o = L' :: r'
-  /\ (L' = L \/ L' = fst (step L o)).
-Proof. destruct i; cbn; eauto. Qed.
+  /\ (L' = L \/ (i = 0%nat /\ L' = fst (lstep L o))).
+Proof. destruct i; cbn; eauto 6. Qed.
 
 (* an entry applied by every node *)
 Lemma entry_all d d' l e (f : st -> st) ns :
@@ -115,15 +200,15 @@ Proof.
   destruct (H s Hs) as (A & B & C). split; [exact A|]. split; assumption.
 Qed.
 
-Lemma step_entry d l s o e d' :
+Lemma step_entry d l s o e d' res0 :
   (forall s0, log (fst (step s0 o)) = log s0 ++ [e]) ->
-  (forall a b, cells_eq a b -> cells_eq (spec_step a o) (spec_step b o)) ->
-  cells_eq (spec_step d o) d' ->
+  (forall s0, snd (step s0 o) = res0) ->
+  cells_eq (spec_step d o res0) d' ->
   good d l s -> Inv (fst (step s o)) /\ cells_eq (live (fst (step s o))) d' /\ log (fst (step s o)) = l ++ [e].
 Proof.
-  intros Hlog Hc Hd (I & Hl & Hlg).
-  destruct (step_preserves s o I) as [I' Hl']. split; [exact I'|]. split.
-  - eapply cells_eq_trans; [exact Hl'|]. eapply cells_eq_trans; [apply Hc; exact Hl | exact Hd].
+  intros Hlog Hres Hd (I & Hl & Hlg).
+  destruct (step_preserves s o I) as [I' Hl']. rewrite Hres in Hl'. split; [exact I'|]. split.
+  - eapply cells_eq_trans; [exact Hl'|]. eapply cells_eq_trans; [apply spec_step_congr; exact Hl | exact Hd].
   - rewrite Hlog, Hlg. reflexivity.
 Qed.
 
@@ -135,12 +220,12 @@ Proof.
   unfold join_node. rewrite E. destruct (compacted c) eqn:Ec.
   - (* snapshot install *)
     pose proof (ci_snap _ _ _ CI L r E Ec) as Hne.
-    destruct IL as (r0 & Hr & H2 & H3 & H4).
+    destruct IL as (r0 & Hr & H2 & H3 & H4 & _ & _).
     destruct (restored_nonempty L Hne r0 Hr) as (db & ws & Hres & ->).
     destruct (snaps L) as [|x xs] eqn:Es; [congruence|]. rewrite Hres.
     set (s0 := {| dbf := apply_segs db ws; wal := []; staging := []; snaps := [SFull (newest_idx L) db ws];
-                  full_needed := false; log := log L |}).
-    pose proof (phys_fold (suffix L) s0) as P. cbv zeta in P. destruct P as (P1 & P2 & P3 & P4 & P5).
+                  full_needed := false; log := log L; mnewer := false; pending := None |}).
+    pose proof (phys_fold (suffix L) s0 eq_refl) as P. cbv zeta in P. destruct P as (P1 & P2 & P3 & P4 & P5 & P6 & P7).
     set (s' := fold_left apply_phys (suffix L) s0) in *.
     exists s', L, r. split; [reflexivity|]. split; [reflexivity|].
     assert (Hsuf : suffix s' = suffix L).
@@ -148,27 +233,31 @@ Proof.
     assert (Hlive : live s' = replay (suffix L) (apply_segs db ws)).
     { rewrite P4. reflexivity. }
     split; [|split].
-    + exists (apply_segs db ws). split; [|split; [|split]].
+    + exists (apply_segs db ws). split; [|split; [|split; [|split; [|split]]]].
       * unfold restored. rewrite P1. reflexivity.
       * intros Hf. rewrite P3. cbn [staging s0 apply_segs fold_left].
         rewrite P5; [apply cells_eq_refl|].
-        unfold full_due in Hf. apply orb_false_iff in Hf. tauto.
+        unfold full_due in Hf. apply orb_false_iff in Hf as [Hf _]. apply orb_false_iff in Hf. tauto.
       * rewrite Hsuf, Hlive. apply cells_eq_refl.
       * unfold newest_idx at 1. rewrite P1, P2. cbn [s0 snaps snap_idx log]. exact H4.
+      * apply P7. cbn. discriminate.
+      * unfold pend_ok. rewrite P6. exact I.
     + rewrite Hlive. eapply cells_eq_trans; [exact H3 | exact HlL].
     + exact P2.
   - (* log replay from the first entry *)
     pose proof (ci_log _ _ _ CI L r E Ec) as Hrep.
-    pose proof (phys_fold (log L) (blank (log L))) as P. cbv zeta in P. destruct P as (P1 & P2 & P3 & P4 & P5).
+    pose proof (phys_fold (log L) (blank (log L)) eq_refl) as P. cbv zeta in P. destruct P as (P1 & P2 & P3 & P4 & P5 & P6 & P7).
     set (s' := fold_left apply_phys (log L) (blank (log L))) in *.
     exists s', L, r. split; [reflexivity|]. split; [reflexivity|].
     assert (Hlive : live s' = replay (log L) []) by (rewrite P4; reflexivity).
     split; [|split].
-    + exists []. split; [|split; [|split]].
+    + exists []. split; [|split; [|split; [|split; [|split]]]].
       * unfold restored. rewrite P1. reflexivity.
       * intros Hf. unfold full_due in Hf. rewrite P1 in Hf. cbn in Hf. rewrite orb_true_r in Hf. discriminate.
       * unfold suffix, newest_idx. rewrite P1, P2. cbn. rewrite Hlive. apply cells_eq_refl.
       * unfold newest_idx. rewrite P1. cbn. lia.
+      * apply P7. cbn. discriminate.
+      * unfold pend_ok. rewrite P6. exact I.
     + rewrite Hlive. exact Hrep.
     + exact P2.
 Qed.
@@ -178,20 +267,21 @@ Proof. intros E H. apply (H L r E). Qed.
 
 Lemma cstep_preserves c o d k :
   CInv c d k ->
-  CInv (fst (cstep c o)) (fst (cspec_step (d, k) o)) (snd (cspec_step (d, k) o)).
+  CInv (fst (cstep c o)) (fst (cspec_step (d, k) o (snd (cstep c o)))) (snd (cspec_step (d, k) o (snd (cstep c o)))).
 Proof.
   intros CI. destruct (ci_leader _ _ _ CI) as (L & r & E).
   pose proof (ci_nodes _ _ _ CI L r E) as F.
-  assert (entry_case : forall o1 e d',
+  assert (entry_case : forall o1 e d' res0,
     (forall s0, log (fst (step s0 o1)) = log s0 ++ [e]) ->
+    (forall s0, snd (step s0 o1) = res0) ->
     (forall s0, snaps s0 <> [] -> snaps (fst (step s0 o1)) <> []) ->
-    cells_eq (spec_step d o1) d' ->
+    cells_eq (spec_step d o1 res0) d' ->
     cells_eq (replay_entry d e) d' ->
     CInv (all_nodes c o1) d' k).
-  { intros o1 e d' Hlog Hsn Hd He.
+  { intros o1 e d' res0 Hlog Hres Hsn Hd He.
     assert (F' : Forall (good d' (log L ++ [e])) (map (fun s => fst (step s o1)) (nodes c))).
     { apply (entry_all d d' (log L) e); [|exact F].
-      intros s Hs. apply (step_entry d (log L) s o1 e d'); auto. intros a b. apply spec_step_congr. }
+      intros s Hs. apply (step_entry d (log L) s o1 e d' res0); auto. }
     constructor; cbn [all_nodes nodes compacted].
     - rewrite map_length. apply (ci_len _ _ _ CI).
     - rewrite E. cbn. eauto.
@@ -199,11 +289,31 @@ Proof.
     - intros L1 r1 E1 Hc. rewrite E in E1. cbn in E1. inversion E1; subst. rewrite Hlog, replay_snoc.
       eapply cells_eq_trans; [|exact He]. apply replay_entry_congr. apply (ci_log _ _ _ CI L r E Hc).
     - intros L1 r1 E1 Hc. rewrite E in E1. cbn in E1. inversion E1; subst. apply Hsn. apply (ci_snap _ _ _ CI L r E Hc). }
-  destruct o as [ks v|cc|cc| |cc|i o compact|i| ]; cbn [cstep cspec_step fst snd].
+  (* something one node does on its own, possibly a leader snapshot that compacts the log *)
+  assert (local_case : forall i lo cm' cmp, local_lop lo -> cm' = (compacted c || cmp)%bool ->
+    (cmp = true -> i = 0%nat /\ snaps (fst (lstep L lo)) <> []) ->
+    CInv {| nodes := at_node (nodes c) i lo; compacted := cm' |} d k).
+  { intros i lo cm' cmp Hlo Hcm Hcmp.
+    destruct (at_node_head L r i lo) as (L' & r' & E' & HL').
+    assert (HlogL : log L' = log L).
+    { destruct HL' as [-> | [_ ->]]; [reflexivity|]. apply llocal_log. exact Hlo. }
+    constructor; cbn [nodes compacted].
+    - rewrite at_node_length. apply (ci_len _ _ _ CI).
+    - rewrite E, E'. eauto.
+    - intros L1 r1 E1. rewrite E, E' in E1. inversion E1; subst L1 r1. rewrite HlogL.
+      apply at_node_good; assumption.
+    - intros L1 r1 E1 Hc. rewrite E, E' in E1. inversion E1; subst L1 r1. rewrite HlogL.
+      rewrite Hcm in Hc. apply orb_false_iff in Hc as [Hc _]. apply (ci_log _ _ _ CI L r E Hc).
+    - intros L1 r1 E1 Hc. rewrite E, E' in E1. inversion E1; subst L1 r1.
+      rewrite Hcm in Hc. apply orb_true_iff in Hc as [Hc | Hc].
+      + pose proof (ci_snap _ _ _ CI L r E Hc) as Hne.
+        destruct HL' as [-> | [_ ->]]; [exact Hne|]. apply llocal_snaps; assumption.
+      + destruct (Hcmp Hc) as [-> Hne]. cbn in E'. inversion E'; subst L' r'. exact Hne. }
+  destruct o as [ks v|cc|cc| |cc|i o compact|i|i o|i|i| ]; cbn [cstep cspec_step fst snd].
   - (* write *)
-    apply (entry_case (OWrite ks v) (EWrite (map (fun q => (q, v)) ks))); auto using cells_eq_refl.
+    apply (entry_case (OWrite ks v) (EWrite (map (fun q => (q, v)) ks)) _ 0); auto using cells_eq_refl.
   - (* load *)
-    apply (entry_case (OLoad cc) (ELoad (cells_of_vec cc))); auto using cells_eq_refl.
+    apply (entry_case (OLoad cc) (ELoad (cells_of_vec cc)) _ 0); auto using cells_eq_refl.
   - (* SQL-text load *)
     set (w := sql_frames cc).
     assert (F' : Forall (good (apply_frames d w) (log L ++ [EWrite w]))
@@ -221,61 +331,55 @@ Proof.
       rewrite replay_snoc. cbn [replay_entry]. apply apply_frames_congr. apply (ci_log _ _ _ CI L r E Hc).
     + intros L1 r1 E1 Hc. rewrite E in E1. cbn in E1. inversion E1; subst. cbn. apply (ci_snap _ _ _ CI L r E Hc).
   - (* rejected load *)
-    apply (entry_case OLoadBad ELoadBad); auto using cells_eq_refl.
+    apply (entry_case OLoadBad ELoadBad _ 3); auto using cells_eq_refl.
   - (* boot *)
     pose proof (ci_len _ _ _ CI) as Hk.
     destruct (nodes c) as [|s [|s2 r2]] eqn:En.
     + discriminate.
-    + inversion E; subst s r. cbn in Hk. subst k. cbn [Nat.eqb fst snd].
+    + inversion E; subst s r. cbn in Hk. subst k. cbn [fst snd].
       inversion F as [|? ? (I & Hl & _) _]; subst.
       destruct (step_preserves L (OBoot cc) I) as [I' Hl'].
-      constructor; cbn [nodes compacted].
-      * reflexivity.
-      * eauto.
-      * intros L1 r1 E1. inversion E1; subst. constructor; [|constructor].
-        split; [exact I'|]. split; [|reflexivity]. eapply cells_eq_trans; [exact Hl'|]. apply cells_eq_refl.
-      * discriminate.
-      * intros L1 r1 E1 _. injection E1 as <- _. cbn. discriminate.
-    + cbn in Hk. subst k. cbn [Nat.eqb fst snd]. exact CI.
-  - (* snapshot on node i *)
-    destruct (nth_error (nodes c) i) as [s|] eqn:En; cbn [fst]; [|exact CI].
-    destruct (at_node_head L r i (OSnap o)) as (L' & r' & E' & HL').
-    assert (HlogL : log L' = log L).
-    { destruct HL' as [-> | ->]; [reflexivity|]. unfold step, step_gen. apply snapshot_log. }
-    constructor; cbn [nodes compacted].
-    + rewrite at_node_length. apply (ci_len _ _ _ CI).
-    + rewrite E, E'. eauto.
-    + intros L1 r1 E1. rewrite E, E' in E1. inversion E1; subst. rewrite HlogL.
-      apply at_node_good; eauto.
-    + intros L1 r1 E1 Hc. rewrite E, E' in E1. inversion E1; subst. rewrite HlogL.
-      apply orb_false_iff in Hc as [Hc _]. apply (ci_log _ _ _ CI L r E Hc).
-    + intros L1 r1 E1 Hc. rewrite E, E' in E1.
-      apply orb_true_iff in Hc as [Hc | Hc].
-      * inversion E1; subst. pose proof (ci_snap _ _ _ CI L r E Hc) as Hne.
-        destruct HL' as [-> | ->]; [exact Hne|]. unfold step, step_gen. apply snapshot_snaps. exact Hne.
-      * (* the leader has just taken a snapshot that compacts its log *)
-        apply andb_true_iff in Hc as [Hc Hout]. apply andb_true_iff in Hc as [Hc Hres].
-        apply andb_true_iff in Hc as [_ Hi]. apply PeanoNat.Nat.eqb_eq in Hi. subst i.
-        destruct o; try discriminate.
-        rewrite E in En. cbn in En. inversion En; subst s.
-        cbn in E'. inversion E'; subst L' r'. inversion E1; subst.
-        apply N.eqb_eq in Hres. unfold step, step_gen in *. apply snap_ok_nonempty. exact Hres.
+      assert (Hcase : snd (step L (OBoot cc)) = 0 \/ (snd (step L (OBoot cc)) =? 0) = false /\ fst (step L (OBoot cc)) = L).
+      { unfold step, step_gen. destruct (pending L) eqn:Ep; [right; split; reflexivity|]. left.
+        unfold snap_begin, snap_persist; cbn. rewrite Ep. cbn. reflexivity. }
+      destruct Hcase as [H0 | [Hn0 HsL]].
+      * (* booted *)
+        rewrite H0 in *. cbn [N.eqb fst snd] in *.
+        constructor; cbn [nodes compacted].
+        -- reflexivity.
+        -- eauto.
+        -- intros L1 r1 E1. inversion E1; subst. constructor; [|constructor].
+           split; [exact I'|]. split; [exact Hl' | reflexivity].
+        -- rewrite orb_true_r. discriminate.
+        -- intros L1 r1 E1 _. injection E1 as <- _.
+           unfold step, step_gen in *. destruct (pending L) eqn:Ep; [cbn in H0; discriminate|].
+           unfold snap_begin, snap_persist; cbn. rewrite Ep. cbn. discriminate.
+      * (* refused: a snapshot of the node is in flight *)
+        rewrite Hn0. rewrite HsL. cbn [fst snd]. rewrite orb_false_r. rewrite <- En.
+        destruct c as [nc cc0]. cbn in *. subst nc. exact CI.
+    + cbn in Hk. subst k. cbn [fst snd]. cbn [N.eqb]. exact CI.
+  - (* whole snapshot on node i *)
+    destruct (nth_error (nodes c) i) as [s|] eqn:En; cbn [fst snd]; [|exact CI].
+    apply (local_case i (LSnap2 o) _ (compact && Nat.eqb i 0 && (snd (snap2 s o) =? 0) && match o with POk => true | _ => false end)%bool); [exact I | reflexivity |].
+    intros Hc. apply andb_true_iff in Hc as [Hc Hout]. apply andb_true_iff in Hc as [Hc Hres].
+    apply andb_true_iff in Hc as [_ Hi]. apply PeanoNat.Nat.eqb_eq in Hi. subst i.
+    split; [reflexivity|]. destruct o; try discriminate.
+    rewrite E in En. cbn in En. inversion En; subst s.
+    apply N.eqb_eq in Hres. cbn [lstep]. apply snap2_ok_nonempty. exact Hres.
+  - (* snapshot begins on node i *)
+    destruct (nth_error (nodes c) i) as [s|] eqn:En; cbn [fst snd]; [|exact CI].
+    apply (local_case i (LOp OSnapBegin) _ false); [constructor | symmetry; apply orb_false_r | discriminate].
+  - (* snapshot persisted on node i *)
+    destruct (nth_error (nodes c) i) as [s|] eqn:En; cbn [fst snd]; [|exact CI].
+    apply (local_case i (LOp (OSnapPersist o)) _ false); [constructor | symmetry; apply orb_false_r | discriminate].
+  - (* blocked attempt on node i *)
+    destruct (nth_error (nodes c) i) as [s|] eqn:En; cbn [fst snd]; [|exact CI].
+    apply (local_case i (LOp OSnapBlocked) _ false); [constructor | symmetry; apply orb_false_r | discriminate].
   - (* restart of node i *)
-    destruct (nth_error (nodes c) i) as [s|] eqn:En; cbn [fst]; [|exact CI].
-    destruct (at_node_head L r i ORestart) as (L' & r' & E' & HL').
-    assert (HlogL : log L' = log L).
-    { destruct HL' as [-> | ->]; [reflexivity|]. apply restart_log. }
-    constructor; cbn [nodes compacted].
-    + rewrite at_node_length. apply (ci_len _ _ _ CI).
-    + rewrite E, E'. eauto.
-    + intros L1 r1 E1. rewrite E, E' in E1. inversion E1; subst. rewrite HlogL.
-      apply at_node_good; eauto.
-    + intros L1 r1 E1 Hc. rewrite E, E' in E1. inversion E1; subst. rewrite HlogL. apply (ci_log _ _ _ CI L r E Hc).
-    + intros L1 r1 E1 Hc. rewrite E, E' in E1. inversion E1; subst.
-      pose proof (ci_snap _ _ _ CI L r E Hc) as Hne.
-      destruct HL' as [-> | ->]; [exact Hne|]. rewrite restart_snaps. exact Hne.
+    destruct (nth_error (nodes c) i) as [s|] eqn:En; cbn [fst snd]; [|exact CI].
+    apply (local_case i (LOp ORestart) _ false); [constructor | symmetry; apply orb_false_r | discriminate].
   - (* join *)
-    destruct (join_ok c d k CI) as (s & L0 & r0 & E0 & Hj & Hg). rewrite Hj. cbn [fst].
+    destruct (join_ok c d k CI) as (s & L0 & r0 & E0 & Hj & Hg). rewrite Hj. cbn [fst snd].
     rewrite E in E0. inversion E0; subst L0 r0.
     constructor; cbn [nodes compacted].
     + rewrite app_length. cbn. rewrite (ci_len _ _ _ CI). lia.
@@ -297,17 +401,30 @@ Proof.
   - discriminate.
 Qed.
 
-Lemma crun_inv ops : forall c x, CInv c (fst x) (snd x) ->
-  CInv (fold_left (fun c o => fst (cstep c o)) ops c) (fst (fold_left cspec_step ops x)) (snd (fold_left cspec_step ops x)).
+Lemma cboth_inv ops : forall c x, CInv c (fst x) (snd x) ->
+  CInv (fst (fold_left cboth_step ops (c, x))) (fst (snd (fold_left cboth_step ops (c, x)))) (snd (snd (fold_left cboth_step ops (c, x)))).
 Proof.
   induction ops as [|o ops IH]; intros c [d k] CI; cbn [fold_left]; [exact CI|].
+  replace (cboth_step (c, (d, k)) o) with (fst (cstep c o), cspec_step (d, k) o (snd (cstep c o)))
+    by (unfold cboth_step; destruct (cstep c o); reflexivity).
   apply IH. apply cstep_preserves. exact CI.
+Qed.
+
+Lemma cboth_fst ops : forall c x, fst (fold_left cboth_step ops (c, x)) = fold_left (fun c o => fst (cstep c o)) ops c.
+Proof.
+  induction ops as [|o ops IH]; intros c x; cbn [fold_left]; [reflexivity|].
+  replace (cboth_step (c, x) o) with (fst (cstep c o), cspec_step x o (snd (cstep c o)))
+    by (unfold cboth_step; destruct (cstep c o); reflexivity).
+  apply IH.
 Qed.
 
 Theorem load_everywhere ops :
   Forall (node_ok (fst (cspec ops))) (nodes (crun ops)) /\ length (nodes (crun ops)) = snd (cspec ops).
 Proof.
-  pose proof (crun_inv ops cinit ([], 1%nat) cinv_init) as CI. fold (crun ops) (cspec ops) in CI.
+  pose proof (cboth_inv ops cinit ([], 1%nat) cinv_init) as CI.
+  change (fold_left cboth_step ops (cinit, ([], 1%nat))) with (cboth ops) in CI.
+  assert (Ec : crun ops = fst (cboth ops)) by (unfold crun, cboth; rewrite cboth_fst; reflexivity).
+  rewrite Ec. unfold cspec.
   split; [|apply (ci_len _ _ _ CI)].
   destruct (ci_leader _ _ _ CI) as (L & r & E).
   eapply Forall_impl; [|apply (ci_nodes _ _ _ CI L r E)].
@@ -328,7 +445,9 @@ Qed.
 (* non-vacuity *)
 Definition v24 (v : N) : list N := map (fun _ => v) universe.
 Example ex_cluster :
-  let ops := [CWrite [1; 2] 1; CSnap 0 POk false; CBoot (v24 3); CWrite [2] 4; CJoin; CLoadBad; CLoad (v24 5); CWrite [3] 7; CSnap 0 PBlocked false; CSnap 1 PNotInvoked false; CSnap 1 POk false; CSnap 0 POk true; CRestart 1; CJoin; CWrite [1] 6] in
+  let ops := [CWrite [1; 2] 1; CSnap 0 POk false; CBoot (v24 3); CWrite [2] 4; CJoin; CLoadBad; CSnapBegin 0; CLoad (v24 5); CSnapPersist 0 POk;
+              CWrite [3] 7; CSnapBlocked 0; CSnap 1 PNotInvoked false; CSnap 0 PNotInvoked false; CSnap 1 POk false; CSnap 0 POk true; CRestart 1; CJoin; CWrite [1] 6] in
   map (fun s => dump (live s)) (nodes (crun ops)) = [dump (fst (cspec ops)); dump (fst (cspec ops)); dump (fst (cspec ops))]
-  /\ get (fst (cspec ops)) 1 = 6 /\ get (fst (cspec ops)) 2 = 5 /\ compacted (crun ops) = true.
-Proof. vm_compute. auto. Qed.
+  /\ get (fst (cspec ops)) 1 = 6 /\ get (fst (cspec ops)) 2 = 5 /\ compacted (crun ops) = true
+  /\ map (fun s => map cat_of (snaps s)) (nodes (crun ops)) <> [].
+Proof. vm_compute. repeat split; discriminate. Qed.
